@@ -8,7 +8,7 @@ RESERVED = {"æ­¤": 0, "çœŸ": 1, "å‡": 2, "ç©º": 3, "å¼‚å¸¸": 4, "æ˜¾ç¤º": 5, "å
             "é•¿åº¦": 20, "æ•°ç›®": 21, "é¦–é¡¹": 22, "æœ«é¡¹": 23, "é€†åº": 24, "æ–‡æœ¬": 25, "æ‰€æœ‰ç´¢å¼•": 26, "æ‰€æœ‰å€¼": 27,
             "è‡ªèº«": 28, "å†…å®¹": 29,
             "åŽå¢ž": 40, "å‰å¢ž": 41, "æ–°å¢ž": 42, "æ·»åŠ ": 43, "å·¦ç§»": 44, "å³ç§»": 45, "åˆå¹¶": 46, "äº¤æ¢": 47,
-            "åŒ…å«": 48, "å¯»æ‰¾": 49, "å†™å…¥": 50, "è¯»å–": 51, "ç§»é™¤": 52}
+            "åŒ…å«": 48, "å¯»æ‰¾": 49, "å†™å…¥": 50, "è¯»å–": 51, "ç§»é™¤": 52, "è‡ªå¢ž": 53, "è‡ªå‡": 54}
 
 
 def f2bits(x):
@@ -121,6 +121,8 @@ class Renderer:
     # expression -> (text, level). levels: 1 or, 2 and, 3 compare, 4 assign, 5 add, 6 mul, 7 member, 8 basic
     def expr(self, e, min_level=1):
         txt, lvl = self._expr(e)
+        if e[0] in ("EMethod", "EBump") and min_level >= 2 and not txt.startswith("{"):
+            return "{" + txt + "}"       # ä»¥â€¦ï¼ˆâ€¦ï¼‰ as an operand is always grouped
         if lvl < min_level or (self.rng is not None and lvl < 8 and self.rng.random() < 0.08):
             return "{" + txt + "}"
         return txt
